@@ -27,6 +27,9 @@ pub fn opts(which: Which) -> Opts {
     o.inline = false;
     o.tags_on_wrappers = false;
     o.unwrap_tags_shared = false;
+    o.close_attr_pct = 10;
+    // opening tags that span several lines (one attribute per line, the README's layout): all their lines are tag lines
+    o.multiline_tag_pct = 10;
     match which {
         Which::C11 => {
             o.unwrap_pct = 60;
